@@ -1,4 +1,5 @@
 import WcModel.Proofs.BytesWalkBuild
+import WcModel.Proofs.NormNoRaw
 import WcModel.Proofs.BytesWalkLists
 import WcModel.Proofs.BytesWalkWc
 import WcModel.Proofs.FragRender
@@ -335,6 +336,24 @@ theorem norm_unix_noraw (b : Bool) (fl : Flags) (names : List (List Char × Opti
     (h1 : isUnixStyle fl = true) (h2 : fl.rawchars = false) :
     Norm.normPattern (Driver.Lists.normCfgOf b fl names) p = .ok p := by
   simp [Norm.normPattern, Driver.Lists.normCfgOf, h1, h2]
+
+/-- **Without RAWCHARS the normaliser is type-blind** (C18; since the D38 repair): for EVERY pattern text, every flag word without RAWCHARS — Unix
+    or Windows rules — and every name table, `util.norm_pattern` returns the same text for the bytes and the str pattern.  (`Proofs/NormNoRaw`:
+    without RAWCHARS the scanner computes `Norm.ref` — `\/` rewritten under Windows rules, everything else copied — whatever tokens `RE_NORM` /
+    `RE_BNORM` cut the text into.)  With `loops_bytes_eq_str` below this removes the normaliser from the list of things the two worlds share
+    by assumption whenever RAWCHARS is off. -/
+theorem norm_noraw_type_blind (fl : Flags) (names : List (List Char × Option Char)) (p : List Char) (h : fl.rawchars = false) :
+    Norm.normPattern (Driver.Lists.normCfgOf true fl names) p = Norm.normPattern (Driver.Lists.normCfgOf false fl names) p :=
+  Norm.normPattern_noraw_type_blind (Driver.Lists.normCfgOf false fl names) (by simp [Driver.Lists.normCfgOf, h]) true false p
+
+/-- … and what it computes, written out: under Windows rules every `\/` becomes four backslashes, nothing else changes -/
+theorem norm_noraw_is_ref (b : Bool) (fl : Flags) (names : List (List Char × Option Char)) (p : List Char) (h : fl.rawchars = false)
+    (hw : isUnixStyle fl = false) :
+    Norm.normPattern (Driver.Lists.normCfgOf b fl names) p = .ok (Norm.ref true p) := by
+  have hr : (Driver.Lists.normCfgOf b fl names).raw = false := by simp [Driver.Lists.normCfgOf, h]
+  unfold Norm.normPattern
+  simp only [Driver.Lists.normCfgOf, hw, h, Bool.not_false, Bool.not_true, Bool.false_and, Bool.false_eq_true, if_false]
+  exact Norm.go_noraw _ rfl _ _ (Nat.le_refl _)
 
 /-- D38 (found by this proof, repaired by the `fix:` commit cbce5f1): without RAWCHARS the normaliser used to depend on the type under
     Windows rules — `RE_NORM` has a `\N{…}` token, `RE_BNORM` has not, and the str token was returned unchanged, so a `\/` inside the
